@@ -384,9 +384,11 @@ func TestC14_CloseRefundsOnce(t *testing.T) {
 			for _, b := range al.Blobbers {
 				offers += b.Offer
 			}
+			// the configured charge; it is paid out of the write pool after the unearned part of the challenge pool has
+			// been moved back into it, so it can never exceed write pool + challenge pool
 			charge := uint64(float64(offers)*conf.CancellationCharge) + 2*uint64(len(al.Blobbers))
-			if charge > wp {
-				charge = wp
+			if charge > wp+cp {
+				charge = wp + cp
 			}
 			if uint64(got)+charge < wp {
 				return fmt.Errorf("%s", m.viol("refund-too-small", "%s of %s: write pool %d, challenge pool %d, configured cancellation charge at most %d, but the owner got back only %d", fn, c.alloc.id[:8], wp, cp, charge, got))
@@ -407,6 +409,27 @@ func TestC14_CloseRefundsOnce(t *testing.T) {
 			}
 			if blobRew > cp+charge+slack {
 				return fmt.Errorf("%s", m.viol("blobbers-paid-more-than-earned", "%s of %s: blobbers' rewards grew by %d, challenge pool was %d and the cancellation charge is at most %d", fn, c.alloc.id[:8], blobRew, cp, charge))
+			}
+			// earned challenge rewards: a blobber's outstanding value pays for the time from its last settled challenge to
+			// the allocation's expiry; at the moment of closing it has earned at most the share of that period that lies
+			// before now
+			var earned uint64
+			for _, b := range al.Blobbers {
+				l := b.LatestFinalizedChallCreatedAt
+				if b.ChallengePoolIntegralValue == 0 || l == 0 || now <= l {
+					continue
+				}
+				frac := 1.0
+				if al.Expiration > l && now < al.Expiration {
+					frac = float64(now-l) / float64(al.Expiration-l)
+				}
+				earned += uint64(float64(b.ChallengePoolIntegralValue)*frac) + 1
+			}
+			if blobRew > earned+charge+slack {
+				return fmt.Errorf("%s", m.viol("blobbers-paid-more-than-earned", "%s of %s at %d (expiry %d): blobbers' rewards grew by %d; for the time served since their last settled challenge they have earned at most %d of the challenge pool (%d), and the cancellation charge is at most %d", fn, c.alloc.id[:8], now, al.Expiration, blobRew, earned, cp, charge))
+			}
+			if fn == "cancel_allocation" && cp > 0 && earned < cp {
+				st.Class("cancel-with-unearned-challenge-pool")
 			}
 			if _, still := ns.allocs[c.alloc.id]; still {
 				return fmt.Errorf("%s", m.viol("allocation-node-left", "%s of %s succeeded but the allocation node is still there", fn, c.alloc.id[:8]))
